@@ -211,8 +211,8 @@ def cases_for(tier):
     Xs = [{'x': v} for v in ((1, 3) if tier == 'quick' else (0, 1, 2, 3))]
     hards = [[]] + [[h] for h in HARD]
     if tier != 'quick':
-        # pairs of hard statements: every fifth pair (all 15 made the thorough tier run for hours)
-        hards += [[h1, h2] for h1, h2 in itertools.combinations(HARD, 2)][::5]
+        # pairs of hard statements: every eighth pair (all 15 made the thorough tier run for hours)
+        hards += [[h1, h2] for h1, h2 in itertools.combinations(HARD, 2)][::8]
     cases = []
     hows = [None, ('if', GUARDS[0]), ('else', GUARDS[1]), ('implies', GUARDS[2]), ('ifelse2', GUARDS[1])]
     for hard in hards:
